@@ -35,29 +35,34 @@ Section SolveAll.
 
   Notation solve_t_M := (solve_t_M num sub absf ltb isfin zero ev before after).
 
-  (* iter_periods: (len(period_iter), list(zip(indexes, labels))) *)
+  (* iter_periods: (len(period_iter), list(zip(indexes, labels))).
+     Since fix 7cd6323 the DEFAULT first / last periods are positions taken directly (self.lags, len(span) - 1 - self.leads;
+     IndexError when they fall outside the span); only labels GIVEN by the caller are looked up.  Order of evaluation as in
+     the code: the start (default or lookup) is settled before the end is looked at; range() is called last. *)
   Definition iter_periods_M (d : mdesc) (span : list L) (start end_ : option L) : outcome (nat * list (Z * L)) :=
     if (length span =? 0)%nat then Raise (SolutionError None) else
-    match (match start with Some x => Some x | None => py_get span (Z.of_nat (lags d)) end) with
-    | None => Raise IndexError                                   (* span[self.lags] out of range *)
-    | Some st =>
-      match (match end_ with Some x => Some x | None => py_get span (-1 - Z.of_nat (leads d)) end) with
-      | None => Raise IndexError                                 (* span[-1 - self.leads] out of range *)
-      | Some en =>
-        (* range(locate(start), locate(end) + 1): both lookups are evaluated before range() is called *)
-        match locate st with
-        | LFail => Raise KeyError
-        | rs =>
-          match locate en with
-          | LFail => Raise KeyError
-          | re =>
-            match rs, re with
-            | LInt a, LInt b =>
-                let idx := py_range a (b + 1) in
-                Ret (length idx, combine idx (py_slice span a (b + 1)))
-            | _, _ => Raise TypeError                            (* slice / mask where an integer is needed *)
-            end
-          end
+    let rs : locres + exn :=
+      match start with
+      | None => if (length span <=? lags d)%nat then inr IndexError else inl (LInt (Z.of_nat (lags d)))
+      | Some x => match locate x with LFail => inr KeyError | r => inl r end
+      end in
+    match rs with
+    | inr e => Raise e
+    | inl rs =>
+      let re : locres + exn :=
+        match end_ with
+        | None => let b := Z.of_nat (length span) - 1 - Z.of_nat (leads d) in
+                  if b <? 0 then inr IndexError else inl (LInt b)
+        | Some y => match locate y with LFail => inr KeyError | r => inl r end
+        end in
+      match re with
+      | inr e => Raise e
+      | inl re =>
+        match rs, re with
+        | LInt a, LInt b =>
+            let idx := py_range a (b + 1) in
+            Ret (length idx, combine idx (py_slice span a (b + 1)))
+        | _, _ => Raise TypeError                            (* slice / mask where an integer is needed *)
         end
       end
     end.
